@@ -10,7 +10,7 @@ import (
 func init() { core.Register("C07", Run) }
 
 func Run(c *core.Ctx) {
-	c.Rule = "inputs: every .templ file of the repository plus grammar-generated templ files (internal/tgen: all node and attribute kinds, multi-line and multi-byte expressions, random layout); distinct non-trivial = distinct files that parse and generate; per file every Go expression of the AST, every rune start of every expression line and the position past each line end is checked; proxy family: histories of didOpen/didChange/didClose notifications given to proxy.Server with a stub gopls (documents: slot files covering every syntactic slot, grammar-generated files, small repository templates; edits placed relative to an expression of the current AST - blank lines / indentation / blanks above and before it, markup lines, typing inside it - plus random typing, breaking characters and their reversal, whole-document replacements, re-opens, closes, two documents), distinct non-trivial = (history, notification) pairs after which the held text generates; after each the held source map is judged against the held text and the Go text at gopls"
+	c.Rule = "inputs: every .templ file of the repository plus grammar-generated templ files (internal/tgen: all node and attribute kinds, multi-line and multi-byte expressions, random layout); distinct non-trivial = distinct files that parse and generate; per file every Go expression of the AST, every rune start of every expression line and the position past each line end is checked; proxy family: histories of didOpen/didChange/didClose notifications given to proxy.Server with a stub gopls (documents: slot files covering every syntactic slot, grammar-generated files, small repository templates; edits placed relative to an expression of the current AST - blank lines / indentation / blanks above and before it, markup lines, typing inside it - plus random typing, breaking characters and their reversal, whole-document replacements, re-opens, closes, two documents), distinct non-trivial = (history, notification) pairs after which the held text generates; after each the held source map is judged against the held text and the Go text at gopls; options family: generator.Generate with lists of GenerateOpt values (exhaustive sweep {version} x {timestamp} x {no / relative / absolute file name} x {skipped comment} on two minimal files, every pool value alone, then random lists - any order, repeated options, versions and file names with line feeds, multi-byte text, quotes, back-quotes, ill-formed UTF-8, random dates and zones - on slot files, grammar files, repository templates, one CRLF file), distinct non-trivial = distinct (file, option list) pairs that generate; per run model text / literals / tables / options record = implementation, the extracted predicate on the implementation's output, and the symbol ranges against the generated text; the constructors, option fields, generation steps and readers of options of the live package are compared with the model's coverage table"
 	c.Proofs()
 	inputs := gentie.RepoTemplates()
 	nRepo := len(inputs)
@@ -27,6 +27,19 @@ func Run(c *core.Ctx) {
 			c.Sample(map[string]any{"file": g.In.Name, "bytes": len(g.In.Src), "source_map_entries": len(g.SM) / 16})
 		}
 	}
+	symOK := true
+	for _, g := range gens {
+		if rep := symbolReport(g.TF, g.Code, g.Out.SourceMap); rep != "" {
+			symOK = false
+			if c.NFails(famSymbols) < 4 {
+				c.Fail("property", famSymbols, "", map[string]any{"file": g.In.Name, "source": g.In.Src, "generated": g.Code, "report": rep},
+					"a recorded symbol range does not lie on the declaration it stands for: "+clip(rep, 300))
+			}
+		}
+	}
+	c.Oblige("correspondence", famSymbols, symOK, "")
 	noPackageFiles(c, inputs[nRepo:])
+	optionCensus(c)
+	optionRuns(c)
 	proxySessions(c)
 }
